@@ -87,6 +87,14 @@ CLAIMED["C04"] = dict(
     design_ref="§5 C04, §4.3",
 )
 
+CLAIMED["C03"] = dict(
+    category="fault_enumeration",
+    engine="deviation",
+    technique="exhaustive enumeration of all constructor input subsets x poisoned values against a reference decision table; (T, p, hint, initial density) lattice; injected failures of the two shadowed density iterations",
+    text="All 2^8 / 2^11 subsets of the optional constructor inputs for one and two components, each with every poisoned value in every present input, are compared with a decision table written from the documented hierarchy (outcome class, echo of every given quantity, iterative targets); the Gross-Sadowski records are swept over the (T_r, p_r) lattice with every density initialisation (success clause, pressure reproduced, stable root by Gibbs energy, requested branch when an independent root scan shows both exist), the two density iterations of the no-hint path are forced to fail in all combinations, and the Newton constructors are asked for the specification of reachable states.",
+    design_ref="§5 C03, §4.3",
+)
+
 NOT_YET = "check not built yet (work in progress; see DESIGN.md §9 build order) - not a claim that the technique cannot apply"
 
 ALL = ["C%02d" % i for i in range(1, 21)]
